@@ -707,9 +707,25 @@ def run(ctx):
                 nxt.append((c["init"], c["hist"] + [c["op"]], nk))
         ctx.note(f"depth {d}: {len(cases)} transitions, {len(nxt)} new states, {len(seen)} states total")
         frontier = nxt
+    # long walks: the whole alphabet in order (and in reverse), started at several rotations, checked after EVERY
+    # operation - histories of 117 operations, far beyond the BFS depth
+    walks = 0
+    walk_cases = []
+    n_ops = len(OPS)
+    for init in ((1, 2) if ctx.tier == "quick" else (0, 1, 2, 3)):
+        for direction in (1, -1):
+            for r in ((0, n_ops // 2) if ctx.tier == "quick" else (0, n_ops // 4, n_ops // 2, 3 * n_ops // 4)):
+                seq = list(range(n_ops))[::direction]
+                seq = seq[r:] + seq[:r]
+                walks += 1
+                walk_cases.extend({"init": init, "hist": seq[:j], "op": seq[j], "key": None} for j in range(n_ops))
+    ctx.evaluate(walk_cases, timeout=120)
+    transitions += len(walk_cases)
+    ctx.note(f"{walks} long walks through the whole alphabet, checked after every one of their {n_ops} operations")
     ctx.coverage_extra.update(
         {
             "states": len(seen),
+            "long_walks": walks,
             "transitions": transitions,
             "traces_validated_against_impl": transitions,
             "depth": depth,
